@@ -505,11 +505,16 @@ _asn1f_compare_tags(arg_t *arg, asn1p_expr_t *a, asn1p_expr_t *b) {
 
 	if(a->_mark & TM_RECURSION) return 0;
 	if(b->_mark & TM_RECURSION) return 0;
-	a->_mark |= TM_RECURSION;
-	b->_mark |= TM_RECURSION;
+	/*
+	 * Mark only the side whose tag is not known yet: the mark makes
+	 * asn1f_fetch_outmost_tag() fail for a type reference, which would
+	 * hide the tag of the other side from the comparisons below.
+	 */
+	if(ra) a->_mark |= TM_RECURSION;
+	if(rb) b->_mark |= TM_RECURSION;
 	ret = _asn1f_compare_tags(arg, b, a);
-	a->_mark &= ~TM_RECURSION;
-	b->_mark &= ~TM_RECURSION;
+	if(ra) a->_mark &= ~TM_RECURSION;
+	if(rb) b->_mark &= ~TM_RECURSION;
 
 	return ret;
 }
